@@ -40,7 +40,8 @@ RULE = ("sizes: every requested size 12, 24, 25..1200 enumerated (table / "
         "root, shift, normalisation, comb factor, 0-4 antennas, taps "
         "L<=K+1<=N/D, 0-3 users on other shifts with L_u<=N/D, cover codes "
         "+-1 of length 2, both layouts) and LS estimation with pilot matrices "
-        "U diag(s) V^H of condition number <= 1e3 (1e4 thorough). "
+        "U diag(s) V^H of condition number <= 1e3 (1e4 thorough), optionally "
+        "with 1..3 exactly-zero pilot instants. "
         "non-trivial = sizes: size > 24; extension: size > Nzc; est/occ: "
         "(>= 2 channel taps and >= 1 interfering user) or size > 1009; "
         "ls: >= 2 transmit antennas. distinct = SHA-1 of the case description")
